@@ -24,7 +24,12 @@ def c17_check(text, ns):
                 res.append(("rejected", type(e).__name__))
                 bad.append("exception: %s(%r) raised %s" % (parse.__qualname__, text if len(text) < 60 else text[:57] + "...", type(e).__name__))
         a, b = res
-        same = a[0] == b[0] and (a[1] is b[1] if a[0] == "ok" and kind is measured.Unit else (a[1] == b[1] or a[1] != a[1]) if a[0] == "ok" else a[1] == b[1])
+        def eqq(x, y):
+            try:
+                return x == y or x != x
+            except OverflowError:
+                return repr(x) == repr(y)
+        same = a[0] == b[0] and (a[1] is b[1] if a[0] == "ok" and kind is measured.Unit else eqq(a[1], b[1]) if a[0] == "ok" else a[1] == b[1])
         if not same: bad.append("nondeterministic: %r parsed twice gives %r and %r" % (text, a, b))
         outs.append(a)
     after = (dict(U._by_name), dict(U._by_symbol), dict(measured.Prefix._by_name), dict(measured.Prefix._by_symbol), dict(measured.Dimension._by_name))
